@@ -62,7 +62,10 @@ RULE = ('cases: (a) hash functions on byte strings (random ASCII/UTF-8/raw bytes
         'kinds of tools/lib/streams.py (BytesIO half of the time, else real file, warm, at EOF, 16-byte buffer, mmap, gzip, decoy fd), a '
         'function of the case seed; e_machine is drawn from a list that includes EM_S390 and EM_ALPHA (ELF64: 64-bit SysV entries encoded by '
         'the spec, ordinary GNU hash); 30 cases have 65..700-byte names placed about one read-buffer length (4096 / 8192) behind their '
-        'entries so that they straddle buffer ends on real files; 4 cases have 1-2 buckets over 66..260 symbols. distinct = hash(kind, abstract); non-trivial = a table with >= 2 symbols, or a hash-function input of '
+        'entries so that they straddle buffer ends on real files; 4 cases have 1-2 buckets over 66..260 symbols; two forced tables (symtab and SysV hash each) have names of 65535 / 65536 / 70001 bytes; '
+        'every list returned by get_symbol_by_name is then consumed and edited in place by the harness as its owner (entries edited, '
+        'del / pop / reverse+append / overwrite) and the names are asked again (second pass in the symtab stream, repeated names in the '
+        'histories). distinct = hash(kind, abstract); non-trivial = a table with >= 2 symbols, or a hash-function input of '
         '>= 2 bytes')
 
 SHT = {'NULL': 0, 'SYMTAB': 2, 'STRTAB': 3, 'HASH': 5, 'DYNSYM': 11, 'SYMTAB_SHNDX': 18,
